@@ -198,8 +198,9 @@ class Model:
                 old = self.rel[(dst, rev)]
                 if old is not None and old != src:
                     self._scalar_replaced(dst, rev, old)
+                    # re-parenting: dst leaves old.r and joins src.r in one step - it stays associated through r, so it is not
+                    # an orphan at any point ("deleted at flush unless it has been re-associated")
                     self.rel[(old, r)].remove(dst)
-                    self._list_removed(old, r, dst)
                 self.rel[(dst, rev)] = src
                 self.hasparent[(src, rev)] = True
             self.rel[(src, r)].append(dst)
@@ -211,8 +212,8 @@ class Model:
             self._scalar_replaced(src, r, old)
             if rev is not None:
                 if old is not None:
+                    # src moves from old.rev to dst.rev in one step: still associated through rev, never an orphan
                     self.rel[(old, rev)].remove(src)
-                    self._list_removed(old, rev, src)
                 self.rel[(dst, rev)].append(src)
                 self.hasparent[(src, rev)] = True
             self.rel[(src, r)] = dst
@@ -247,13 +248,13 @@ class Model:
         # persistent orphans: removed from a delete-orphan relationship and not re-attached
         for k, s in list(self.state.items()):
             if s == "S" and self.is_orphan(k):
-                # the child of a one-to-many is itself dirty (its many-to-one changed) and is examined by the flush; the target of a
-                # many-to-many / many-to-one is only examined through the object it was removed from, which must be part of the flush
+                # an object with a reverse relationship is itself dirty and examined by the flush; a tag (no relationship back) is
+                # only examined through the parent it was removed from, which must be part of the flush
                 seen_by_flush = False
                 for r, d in RELS.items():
                     if d[1] == k[0] and self.has(r, "delete-orphan") and self.hasparent.get((k, r), True) is False:
-                        if d[3] is not None and d[2]:
-                            seen_by_flush = True
+                        if d[3] is not None:
+                            seen_by_flush = True  # its own reverse attribute changed: it is dirty and examined by the flush
                         else:
                             by = self.removed_by.get((k, r))
                             seen_by_flush = seen_by_flush or (by is not None and self.state.get(by) in ("S", "P"))
@@ -280,7 +281,9 @@ class Model:
                 srck, dstk, uselist, rev = RELS[r]
                 if uselist and rev is not None and not self.has(r, "delete"):
                     for m in self.members(k, r):
-                        if m not in doomed and self.insession(m):
+                        # members attached since the last flush are not de-associated by the delete (unit of work looks at
+                        # unchanged / removed members only): their foreign key is not judged
+                        if m not in doomed and self.insession(m) and m in (self.committed.get((k, r)) or []):
                             nulled.add((m, rev))
         for k in self.state:
             if self.state[k] == "P":
@@ -312,6 +315,7 @@ class _Run:
         self.flags = {"reparent": False, "reattach": False}
         self.detached_this_epoch = set()
         self.excluded = []
+        self.stop = False
         init = case["init"]
         n_o, n_p = init["n_o"], init["n_p"]
         owners = [dict(id=i + 1) for i in range(n_o)]
@@ -463,9 +467,60 @@ class _Run:
         dst = self.pick(di, lambda k: k[0] == dstk and m.state[k] != "D")
         if src is None or dst is None:
             return None
+        return self._link_keys(r, src, dst, pinned)
+
+    def op_linknew(self, ri, oi, pinned):
+        """attach the most recently created object through relationship ri (it is the target of a list side or the source of a scalar side)"""
+        m = self.m
+        r = REL_NAMES[ri % 7]
+        srck, dstk, uselist, rev = RELS[r]
+        new = self.order[-1]
+        if m.state.get(new) != "T":
+            return None
+        if uselist and new[0] == dstk:
+            src = self.pick(oi, lambda k: k[0] == srck and m.state[k] != "D")
+            return None if src is None else self._link_keys(r, src, new, pinned)
+        if not uselist and new[0] == srck:
+            dst = self.pick(oi, lambda k: k[0] == dstk and m.state[k] != "D")
+            return None if dst is None else self._link_keys(r, new, dst, pinned)
+        return None
+
+    def op_move(self, li, ii, ni, side, pinned):
+        """re-parent: an object that has a parent through a one-to-many goes to another parent, through either side"""
+        m = self.m
+        L = ["children", "grandchildren", "parents", "children"][li % 4]
+        srck, dstk, _u, rev = RELS[L]
+        item = self.pick(ii, lambda k: k[0] == dstk and m.state[k] != "D" and m.rel[(k, rev)] is not None)
+        if item is None:
+            return self.op_link(li, ii, ni, pinned)
+        newp = self.pick(ni, lambda k: k[0] == srck and m.state[k] != "D" and k != m.rel[(item, rev)])
+        if newp is None:
+            return None
+        return self._link_keys(L, newp, item, pinned) if side % 2 == 0 else self._link_keys(rev, item, newp, pinned)
+
+    def op_bounce(self, li, pi, ii, side, same):
+        """detach an object and attach it again (to the same or another parent) before the flush"""
+        m = self.m
+        L = ["children", "grandchildren", "tags", "parents", "children"][li % 5]
+        srck, dstk, _u, rev = RELS[L]
+        par = self.pick(pi, lambda k: k[0] == srck and m.state[k] != "D" and any(m.state[x] != "D" for x in m.members(k, L)))
+        if par is None:
+            return None
+        mem = [x for x in m.members(par, L) if m.state[x] != "D"]
+        item = mem[ii % len(mem)]
+        self.do_unlink(L, par, item)
+        self.observe(f"unlink {par}.{L} -= {item} (first half of a detach/re-attach)")
+        newp = par if same % 2 == 0 else (self.pick(same, lambda k: k[0] == srck and m.state[k] != "D") or par)
+        self.classes.add("detach")
+        if rev is not None and side % 2:
+            return self._link_keys(rev, item, newp, False)
+        return self._link_keys(L, newp, item, False)
+
+    def _link_keys(self, r, src, dst, pinned):
+        m = self.m
+        srck, dstk, uselist, rev = RELS[r]
         if dst in m.members(src, r):
             return None
-        fwd, other = (r, rev) if uselist else (rev, r)  # fwd: the list side of the pair (or r itself for tags)
         if self.single_parent_conflict(r, src, dst) or (rev and self.single_parent_conflict(rev, dst, src)):
             self.classes.add("skip-single-parent")
             return None
@@ -478,18 +533,19 @@ class _Run:
                 oldp_list = [k for k in m.state if k[0] == dstk and (k, rev) in m.rel and src in m.members(k, rev)]
                 oldp = oldp_list[0] if oldp_list else None
         replaced = None if uselist else m.rel[(src, r)]
+        trigger = False
         if oldp is not None and via is not None:
             self.flags["reparent"] = True
             self.classes.add("reparent")
-            if m.state[moved] == "P" and m.has(via, "delete-orphan") and m.insession(oldp) and not pinned:
+            trigger = m.state[moved] == "P" and m.has(via, "delete-orphan") and m.insession(oldp)
+            if trigger and not pinned:
                 # known finding: one-step move of a pending object between delete-orphan parents; generate it as detach + attach
                 self.excluded.append("one-step re-parenting of a pending object between delete-orphan parents (known finding)")
                 if uselist:
                     self.do_unlink(r, oldp, moved)
                 else:
                     self.do_unlink(r, src, replaced)
-                if m.state.get(moved) != "P" and not pinned:
-                    pass
+                trigger = False
         if (moved, via) in self.detached_this_epoch or (not uselist and (dst, r) in self.detached_this_epoch):
             self.flags["reattach"] = True
             self.classes.add("detach-then-reattach")
@@ -503,7 +559,12 @@ class _Run:
         if m.rel[(src, r)] is not None and not uselist and m.rel[(src, r)] != dst:
             self.detached_this_epoch.add((m.rel[(src, r)], r))
         m.link(r, src, dst)
-        self.classes.add("attach-" + ("owning-side" if (uselist and rev) or r in ("tags", "owner") else "backref-side" if rev else "owning-side"))
+        if trigger and m.insession(moved) and self.objs[moved] not in self.sess:
+            raise Violation("C39/delete-orphan/pending-object-expunged-while-being-reparented",
+                            f"{moved} was pending and attached to {oldp} through {via} (delete-orphan); moving it to another parent in one step "
+                            f"({src}.{r} {'+=' if uselist else '='} {dst}) removed it from the session although it is associated with its new parent; "
+                            f"it will not be inserted (cascades {self.cascades})", observed="not in session", expected="pending")
+        self.classes.add("attach-" + ("owning-side" if r in ("children", "grandchildren", "tags", "owner") else "backref-side"))
         return f"link {src}.{r} += {dst}"
 
     def do_unlink(self, r, src, item):
@@ -609,14 +670,38 @@ class _Run:
         return f"{'refresh' if refresh else 'expire'} {k}"
 
     # ---------------------------------------------------------------- flush + database oracle
-    def op_flush(self, where):
+    def op_flush(self, where, pinned=False):
         m = self.m
+        # --- situations that are not judged / known findings: detect them on the model before flushing
+        pending_in_orphan_cascade = []
+        for k, st_ in m.state.items():
+            if st_ in ("S", "X") and m.is_orphan(k):
+                clo = m.closure(k, "delete")
+                if st_ == "X" and any(m.insession(c) for c in clo):
+                    # an orphan that was expunged: it is outside the session, what happens to its delete cascade is unspecified
+                    self.stop = True
+                    self.classes.add("ended-early-orphan-outside-session")
+                    return
+                if st_ == "S":
+                    pending_in_orphan_cascade += [c for c in clo if m.state[c] == "P"]
+        if pending_in_orphan_cascade and not pinned:
+            self.excluded.append("delete cascade of an orphaned persistent object reaches a pending object (known finding: flush fails)")
+            self.stop = True
+            return
         before = dict(m.state)
         insess_before = {k for k, s in before.items() if s in IN_SESSION}
         rel_before = {kr: (list(v) if isinstance(v, list) else v) for kr, v in m.rel.items()}
         with warnings.catch_warnings():
             warnings.simplefilter("ignore")
-            self.sess.flush()
+            try:
+                self.sess.flush()
+            except Exception as e:
+                if pending_in_orphan_cascade:
+                    raise Violation("C39/flush/orphan-delete-cascade-registers-pending-object-for-delete",
+                                    f"{where}: flush raised {type(e).__name__} ({str(e)[:160]}): the delete cascade of an orphaned persistent object reached the pending "
+                                    f"object(s) {pending_in_orphan_cascade}, which were scheduled for DELETE although they were never inserted; cascades {self.cascades}",
+                                    observed=type(e).__name__, expected="flush succeeds (pending object discarded or inserted)")
+                raise
         doomed, nulled = m.flush()
         # membership right after the flush
         from sqlalchemy import inspect
@@ -672,17 +757,31 @@ class _Run:
                     continue
                 # association rows of a tag that is deleted from its own side are not maintained (Tag has no relationship back): not judged
                 want = {(k[1], t[1]) for t in tl if t not in doomed}
-                got = {l for l in links if l[0] == k[1] and ("tag", l[1]) not in doomed}
+                got = {l for l in links if l[0] == k[1] and ("tag", l[1]) not in doomed and ("tag", l[1]) in insess_before}
                 if got != want:
                     raise Violation("C39/db/parent_tag", f"{where}: association rows of {k} are {sorted(got)}, expected {sorted(want)}", observed=sorted(got), expected=sorted(want))
         # 3. raw orphan invariant for delete + delete-orphan relationships
         for r, child_t, fk, parent_t in (("children", "child", "parent_id", "parent"), ("grandchildren", "grandchild", "child_id", "child")):
             if {"delete", "delete-orphan"} <= set(self.cascades[r]):
                 bad = self.rc.execute(f"SELECT c.id FROM {child_t} c LEFT JOIN {parent_t} p ON c.{fk} = p.id WHERE p.id IS NULL").fetchall()
-                bad = [b[0] for b in bad if (child_t, b[0]) in before and before[(child_t, b[0])] in ("S", "D", "P") and self._ever_parented((child_t, b[0]), r, rel_before)]
+                rev = RELS[r][3]
+                bad = [b[0] for b in bad if (child_t, b[0]) in before and before[(child_t, b[0])] in ("S", "D", "P") and self._ever_parented((child_t, b[0]), r, rel_before)
+                       and (rel_before.get(((child_t, b[0]), rev)) is None or rel_before[((child_t, b[0]), rev)] in insess_before)]
                 if bad:
                     raise Violation(f"C39/invariant/{r}/orphan-row", f"{where}: {child_t} rows {bad} have no parent row although {r} is delete + delete-orphan", observed=bad, expected=[])
         self.classes.add("flush")
+        # rows that reference a missing row (possible only through the situations that are not judged: objects outside the
+        # session, a tag deleted from its own side): later epochs would start from a graph that is not the database -> stop here
+        dangling = 0
+        for q in ("SELECT count(*) FROM child c WHERE c.parent_id IS NOT NULL AND c.parent_id NOT IN (SELECT id FROM parent)",
+                  "SELECT count(*) FROM grandchild g WHERE g.child_id IS NOT NULL AND g.child_id NOT IN (SELECT id FROM child)",
+                  "SELECT count(*) FROM parent p WHERE p.owner_id IS NOT NULL AND p.owner_id NOT IN (SELECT id FROM owner)",
+                  "SELECT count(*) FROM parent_tag l WHERE l.parent_id NOT IN (SELECT id FROM parent) OR l.tag_id NOT IN (SELECT id FROM tag)"):
+            dangling += self.rc.execute(q).fetchone()[0]
+        if dangling:
+            self.stop = True
+            self.classes.add("ended-early-dangling-reference")
+            return
         self.reload()
 
     def _ever_parented(self, k, r, rel_before):
@@ -709,6 +808,12 @@ def check(case, ctx):
                         what = run.op_link(op[1], op[2], op[3], pinned)
                     elif k == "unlink":
                         what = run.op_unlink(op[1], op[2], op[3])
+                    elif k == "linknew":
+                        what = run.op_linknew(op[1], op[2], pinned)
+                    elif k == "move":
+                        what = run.op_move(op[1], op[2], op[3], op[4], pinned)
+                    elif k == "bounce":
+                        what = run.op_bounce(op[1], op[2], op[3], op[4], op[5])
                     elif k == "delete":
                         what = run.op_delete(op[1])
                     elif k == "expunge":
@@ -719,7 +824,9 @@ def check(case, ctx):
                         raise AssertionError(op)
                     if what is not None:
                         run.observe(f"{what} (epoch {ei} op {oi})")
-                run.op_flush(f"epoch {ei}")
+                run.op_flush(f"epoch {ei}", pinned)
+                if run.stop:
+                    break
             done = True
         finally:
             for c in casc.values():
@@ -752,7 +859,7 @@ def _cases(draw):
     init = {
         "n_o": draw(st.integers(0, 1)),
         "n_p": draw(st.integers(1, 2)),
-        "children": draw(st.lists(st.one_of(st.none(), st.integers(0, 1)), max_size=3)),
+        "children": draw(st.lists(st.one_of(st.none(), st.integers(0, 1)), min_size=1, max_size=3)),
         "grands": draw(st.lists(st.one_of(st.none(), st.integers(0, 2)), max_size=2)),
         "n_t": draw(st.integers(0, 2)),
         "links": [[draw(st.integers(0, 1)), draw(st.integers(0, 1))] for _ in range(draw(st.integers(0, 2)))],
@@ -761,10 +868,19 @@ def _cases(draw):
     epochs = []
     for _ in range(draw(st.integers(1, 3))):
         ops = []
-        for _ in range(draw(st.integers(1, 9))):
-            k = draw(st.sampled_from(["new", "new", "add", "add", "link", "link", "link", "link", "unlink", "unlink", "delete", "expunge", "expire", "refresh"]))
+        for _ in range(draw(st.integers(2, 9))):
+            k = draw(st.sampled_from(["new", "new", "add", "add", "link", "link", "move", "move", "move", "move", "bounce", "bounce", "bounce", "unlink", "unlink", "delete", "expunge", "expire", "refresh", "newlink", "newlink"]))
             if k == "new":
                 ops.append([k, draw(st.integers(0, 4))])
+            elif k == "newlink":
+                # a fresh child / grandchild / tag / parent attached right away (pending objects are what the orphan rules are about)
+                kind, rel = draw(st.sampled_from([[2, 0], [2, 1], [3, 2], [3, 3], [4, 4], [1, 6], [1, 5], [2, 0]]))
+                ops.append(["new", kind])
+                ops.append(["linknew", rel, draw(_i)])
+            elif k == "move":
+                ops.append([k, draw(st.integers(0, 3)), draw(_i), draw(_i), draw(st.integers(0, 1))])
+            elif k == "bounce":
+                ops.append([k, draw(st.integers(0, 4)), draw(_i), draw(_i), draw(st.integers(0, 1)), draw(st.integers(0, 3))])
             elif k == "link":
                 ops.append([k, draw(st.integers(0, 6)), draw(_i), draw(_i)])
             elif k == "unlink":
